@@ -240,10 +240,11 @@ package ucfg
 
 // mvSpec is the statement's value-merge table, defined over cfgEval (what a value evaluates to as a
 // sub-config; nil when it does not): B wins unless both sides evaluate to sub-configs, then A's node.
-//@ axiom forall o value :: forall x value :: o == nil ==> mvSpec(o, x) == x
-//@ axiom forall o value :: forall x value :: o != nil && (cfgEval(o) == nil || cfgEval(x) == nil) ==> mvSpec(o, x) == x
-//@ axiom forall o value :: forall x value :: o != nil && cfgEval(o) != nil && cfgEval(x) != nil ==> mvSpec(o, x) == subval(cfgEval(o))
-//@ axiom forall x value :: typeof(x) == cfgSub ==> cfgEval(x) == x.(cfgSub).c
+//@ axiom [mv] forall o value :: forall x value :: o == nil ==> mvSpec(o, x) == x
+//@ axiom [mv] forall o value :: forall x value :: o != nil && (cfgEval(o) == nil || cfgEval(x) == nil) ==> mvSpec(o, x) == x
+//@ axiom [mv] forall o value :: forall x value :: o != nil && cfgEval(o) != nil && cfgEval(x) != nil ==> mvSpec(o, x) == subval(cfgEval(o))
+//@ axiom [cfgnil] cfgEval(nilv()) == nil
+//@ axiom [cfgsub] forall x value :: typeof(x) == cfgSub ==> cfgEval(x) == x.(cfgSub).c
 
 //@ ghost func mergedInto(to *Config, from *Config, opts *options) bool
 
@@ -255,6 +256,7 @@ package ucfg
 
 //@ func mergeValues :: opts, old, v -> r, err
 //@ props C01
+//@ uses mv
 //@ requires v != nil
 //@ modifies tree(cfgEval(old))
 //@ ensures [nonnil] err == nil ==> r != nil
@@ -776,3 +778,59 @@ package ucfg
 //@ loop 2 invariant forall k string :: has(dict, k) ==> copyOf(fields.d[k], dict[k]) && fresh(fields.d[k]) && cctx(fields.d[k]).parent == toAny(newC) && cctx(fields.d[k]).field == ctxof(dict[k]).field
 //@ loop 2 invariant forall j int :: 0 <= j && j <= rangeindex ==> copyOf(fields.a[j], arr[j]) && fresh(fields.a[j]) && cctx(fields.a[j]).parent == toAny(newC) && cctx(fields.a[j]).field == ctxof(arr[j]).field
 //@ loop 2 decreases len(arr) - rangeindex
+
+// ---------------------------------------------------------------- array dispatch (C01: policy -> strategy)
+
+// nodeOK: the assumed ownership facts at one destination node (DESIGN.md section 4, treeOK): the node's
+// own objects belong to its tree, children's trees are inside it and do not contain the node's objects
+// nor the source's.
+//@ pred arrOK(to *Config, from *Config) := to != nil && to.fields != nil && from != nil && from.fields != nil && base(from.fields.a) != base(to.fields.a) && len(to.fields.a) + len(from.fields.a) < 9223372036854775807 && inTree(to, to.fields) && inTree(to, base(to.fields.a)) && (forall j int :: 0 <= j && j < len(from.fields.a) ==> from.fields.a[j] != nil) && (forall j int :: 0 <= j && j < len(to.fields.a) ==> to.fields.a[j] != nil) && (forall j int :: 0 <= j && j < len(to.fields.a) ==> !inTree(cfgEval(to.fields.a[j]), to) && !inTree(cfgEval(to.fields.a[j]), to.fields) && !inTree(cfgEval(to.fields.a[j]), base(to.fields.a)) && !inTree(cfgEval(to.fields.a[j]), from) && !inTree(cfgEval(to.fields.a[j]), from.fields) && !inTree(cfgEval(to.fields.a[j]), base(from.fields.a))) && (forall j int :: 0 <= j && j < len(to.fields.a) ==> subtree(cfgEval(to.fields.a[j]), to))
+
+//@ func mergeConfigArr
+//@ props C01
+//@ requires opts != nil && arrOK(to, from)
+//@ requires !inTree(to, opts) && !inTree(to, from) && !inTree(to, from.fields) && !inTree(to, base(from.fields.a))
+//@ modifies tree(to)
+//@ ensures [replace] (old(opts.configValueHandling) == cfgReplaceValue || old(opts.configValueHandling) == cfgArrReplaceValue) && len(old(from.fields.a)) > 0 && result == nil ==> len(to.fields.a) == len(old(from.fields.a)) && forall j int :: 0 <= j && j < len(old(from.fields.a)) ==> copyOf(to.fields.a[j], old(from.fields.a[j]))
+//@ ensures [replace_empty] (old(opts.configValueHandling) == cfgReplaceValue || old(opts.configValueHandling) == cfgArrReplaceValue) && len(old(from.fields.a)) == 0 && result == nil ==> to.fields.a == old(to.fields.a)
+//@ ensures [prepend] old(opts.configValueHandling) == cfgArrPrepend && len(old(from.fields.a)) > 0 && result == nil ==> len(to.fields.a) == len(old(to.fields.a)) + len(old(from.fields.a)) && (forall j int :: 0 <= j && j < len(old(from.fields.a)) ==> copyOf(to.fields.a[j], old(from.fields.a[j]))) && (forall j int :: 0 <= j && j < len(old(to.fields.a)) ==> copyOf(to.fields.a[len(old(from.fields.a)) + j], old(to.fields.a[j])))
+//@ ensures [prepend_empty] old(opts.configValueHandling) == cfgArrPrepend && len(old(from.fields.a)) == 0 && result == nil ==> to.fields.a == old(to.fields.a)
+//@ ensures [append] old(opts.configValueHandling) == cfgArrAppend && result == nil ==> len(to.fields.a) == len(old(to.fields.a)) + len(old(from.fields.a)) && (forall j int :: 0 <= j && j < len(old(to.fields.a)) ==> to.fields.a[j] == old(to.fields.a[j])) && (forall j int :: 0 <= j && j < len(old(from.fields.a)) ==> copyOf(to.fields.a[len(old(to.fields.a)) + j], old(from.fields.a[j])))
+//@ ensures [index_wise_len] old(opts.configValueHandling) != cfgReplaceValue && old(opts.configValueHandling) != cfgArrReplaceValue && old(opts.configValueHandling) != cfgArrPrepend && old(opts.configValueHandling) != cfgArrAppend && result == nil ==> (len(old(to.fields.a)) >= len(old(from.fields.a)) ==> len(to.fields.a) == len(old(to.fields.a))) && (len(old(to.fields.a)) < len(old(from.fields.a)) ==> len(to.fields.a) == len(old(from.fields.a)))
+//@ ensures [index_wise] old(opts.configValueHandling) != cfgReplaceValue && old(opts.configValueHandling) != cfgArrReplaceValue && old(opts.configValueHandling) != cfgArrPrepend && old(opts.configValueHandling) != cfgArrAppend && result == nil && len(old(from.fields.a)) <= len(old(to.fields.a)) ==> forall j int :: 0 <= j && j < len(old(from.fields.a)) ==> copyOf(to.fields.a[j], mvSpec(old(to.fields.a[j]), old(from.fields.a[j])))
+//@ ensures [dict] (old(opts.configValueHandling) == cfgReplaceValue || old(opts.configValueHandling) == cfgArrReplaceValue || old(opts.configValueHandling) == cfgArrPrepend || old(opts.configValueHandling) == cfgArrAppend) && result == nil ==> to.fields.d == old(to.fields.d)
+
+// ---------------------------------------------------------------- dictionary merge (C01 union/override, C10 copies)
+
+//@ pred dictOK(to *Config, from *Config) := to != nil && to.fields != nil && from != nil && from.fields != nil && to.fields != from.fields && inTree(to, to) && inTree(to, to.fields) && (to.fields.d != nil ==> inTree(to, to.fields.d) && to.fields.d != from.fields.d) && (forall k string :: has(from.fields.d, k) ==> from.fields.d[k] != nil) && (forall k string :: has(to.fields.d, k) ==> to.fields.d[k] != nil && !inTree(cfgEval(to.fields.d[k]), to) && !inTree(cfgEval(to.fields.d[k]), to.fields) && !inTree(cfgEval(to.fields.d[k]), to.fields.d) && !inTree(cfgEval(to.fields.d[k]), from) && !inTree(cfgEval(to.fields.d[k]), from.fields) && !inTree(cfgEval(to.fields.d[k]), from.fields.d) && subtree(cfgEval(to.fields.d[k]), to))
+
+//@ func mergeConfigDict$1
+//@ requires deref(to) != nil && deref(to).fields != nil
+//@ modifies deref(to).fields.d
+//@ ensures [keep] deref(ok) ==> deref(to).fields.d == old(deref(to).fields.d)
+//@ ensures [rollback] !deref(ok) ==> deref(to).fields.d == deref(old)
+
+//@ func mergeConfigDict
+//@ props C01 C10
+//@ uses cfgnil
+//@ requires opts != nil && dictOK(to, from)
+//@ requires !inTree(to, opts) && !inTree(to, from) && !inTree(to, from.fields) && (from.fields.d != nil ==> !inTree(to, from.fields.d))
+//@ modifies tree(to)
+//@ ensures [emptyB] old(from.fields.d) == nil ==> result == nil && to.fields.d == old(to.fields.d)
+//@ ensures [source_untouched] from.fields == old(from.fields) && from.fields.d == old(from.fields.d) && forall k string :: has(from.fields.d, k) == old(has(from.fields.d, k)) && (has(from.fields.d, k) ==> from.fields.d[k] == old(from.fields.d[k]))
+//@ ensures [union_keys] result == nil && old(from.fields.d) != nil && old(opts.configValueHandling) != cfgReplaceValue ==> forall k string :: has(to.fields.d, k) == (old(has(to.fields.d, k)) || old(has(from.fields.d, k)))
+//@ ensures [replace_keys] result == nil && old(opts.configValueHandling) == cfgReplaceValue && old(len(from.fields.d)) != 0 ==> forall k string :: has(to.fields.d, k) == old(has(from.fields.d, k))
+//@ ensures [new_keys] result == nil && old(len(from.fields.d)) != 0 ==> forall k string :: old(has(from.fields.d, k)) && (old(opts.configValueHandling) == cfgReplaceValue || !old(has(to.fields.d, k))) ==> copyOf(to.fields.d[k], mvSpec(nilv(), old(from.fields.d[k]))) && fresh(to.fields.d[k]) && cctx(to.fields.d[k]).parent == subval(to) && cctx(to.fields.d[k]).field == k
+//@ ensures [both_keys] result == nil && old(len(from.fields.d)) != 0 && old(opts.configValueHandling) != cfgReplaceValue ==> forall k string :: old(has(from.fields.d, k)) && old(has(to.fields.d, k)) ==> copyOf(to.fields.d[k], mvSpec(old(to.fields.d[k]), old(from.fields.d[k]))) && fresh(to.fields.d[k]) && cctx(to.fields.d[k]).parent == subval(to) && cctx(to.fields.d[k]).field == k
+//@ ensures [A_only] result == nil && old(len(from.fields.d)) != 0 && old(opts.configValueHandling) != cfgReplaceValue ==> forall k string :: old(has(to.fields.d, k)) && !old(has(from.fields.d, k)) ==> to.fields.d[k] == old(to.fields.d[k])
+//@ ensures [rollback] result != nil && old(opts.configValueHandling) == cfgReplaceValue ==> to.fields.d == old(to.fields.d)
+//@ ensures [arr] to.fields == old(to.fields) && to.fields.a == old(to.fields.a)
+//@ loop 1 invariant to == entry(to) && to.fields == old(to.fields) && from.fields == old(from.fields) && from.fields.d == dict && dict != nil && to.fields.a == old(to.fields.a) && !ok
+//@ loop 1 invariant forall k string :: has(dict, k) == old(has(from.fields.d, k)) && (has(dict, k) ==> dict[k] == old(from.fields.d[k]))
+//@ loop 1 invariant old(opts.configValueHandling) == cfgReplaceValue ==> to.fields.d == nil || fresh(to.fields.d)
+//@ loop 1 invariant old(opts.configValueHandling) != cfgReplaceValue ==> (old(to.fields.d) != nil ==> to.fields.d == old(to.fields.d)) && (old(to.fields.d) == nil ==> to.fields.d == nil || fresh(to.fields.d))
+//@ loop 1 invariant forall k string :: has(to.fields.d, k) == ((old(opts.configValueHandling) != cfgReplaceValue && old(has(to.fields.d, k))) || visited(k))
+//@ loop 1 invariant forall k string :: visited(k) ==> has(dict, k)
+//@ loop 1 invariant forall k string :: visited(k) && (old(opts.configValueHandling) == cfgReplaceValue || !old(has(to.fields.d, k))) ==> copyOf(to.fields.d[k], mvSpec(nilv(), dict[k])) && fresh(to.fields.d[k]) && cctx(to.fields.d[k]).parent == subval(to) && cctx(to.fields.d[k]).field == k
+//@ loop 1 invariant forall k string :: visited(k) && old(opts.configValueHandling) != cfgReplaceValue && old(has(to.fields.d, k)) ==> copyOf(to.fields.d[k], mvSpec(old(to.fields.d[k]), dict[k])) && fresh(to.fields.d[k]) && cctx(to.fields.d[k]).parent == subval(to) && cctx(to.fields.d[k]).field == k
+//@ loop 1 invariant forall k string :: !visited(k) && old(opts.configValueHandling) != cfgReplaceValue && old(has(to.fields.d, k)) ==> to.fields.d[k] == old(to.fields.d[k])
